@@ -23,10 +23,12 @@ RULE = ('cases = generated chains of 2-4 concurrent writers (sequential interlea
         'non-trivial = a resolution that ran with old != committed != new and >= 1 reference in the state; distinct by case hash')
 ASSUMPTIONS = ['the module-level caches of ZODB.ConflictResolution are cleared at the top of every case',
                'the undo path of resolution is exercised numerically in C06']
-BUDGET = {'quick': {'examples': 3000, 'workers': 8},
-          'thorough': {'examples': 12000, 'workers': 16}}
+BUDGET = {'quick': {'examples': 8000, 'workers': 8},
+          'thorough': {'examples': 80000, 'workers': 16}}
 
-REFKEYS = ['r_oc', 'r_o', 'r_w', 'r_x', 'c_oc', 'c_o', 'c_w', 'c_x', 'r_nest', 'c_nest']
+# ('any': the format of the reference under this key depends on the generated index - one key can hold an ordinary
+# reference in one state and a weak or cross-database one, to an object with the same id, in another)
+REFKEYS = ['r_oc', 'r_o', 'r_w', 'r_x', 'c_oc', 'c_o', 'c_w', 'c_x', 'r_nest', 'c_nest', 'r_any', 'r_any', 'c_any']
 VARIANTS = ['RCounter', 'RCounter', 'RCounter', 'NoResolver', 'Stubborn', 'Exploding', 'Missing']
 MISSING_MOD = 'verif_missing_resolver_mod'
 
@@ -34,7 +36,7 @@ MISSING_MOD = 'verif_missing_resolver_mod'
 def strategy(tier):
     writer = st.fixed_dictionaries({
         'inc': st.integers(0, 5),
-        'sets': st.lists(st.tuples(st.sampled_from(REFKEYS), st.integers(0, 5)), max_size=3).map(lambda l: [list(x) for x in l]),
+        'sets': st.lists(st.tuples(st.sampled_from(REFKEYS), st.integers(0, 11)), max_size=3).map(lambda l: [list(x) for x in l]),
         'minimize': st.booleans(),
         # (RCounter only) the resolver fails for this writer's state with this exception type; the writers after it
         # are resolved normally again
@@ -45,7 +47,7 @@ def strategy(tier):
     return st.fixed_dictionaries({
         'kind': st.sampled_from(['fs', 'fs', 'demo', 'demo-base']),
         'variant': st.sampled_from(VARIANTS),
-        'init': st.lists(st.tuples(st.sampled_from(REFKEYS), st.integers(0, 5)), max_size=4).map(lambda l: [list(x) for x in l]),
+        'init': st.lists(st.tuples(st.sampled_from(REFKEYS), st.integers(0, 11)), max_size=4).map(lambda l: [list(x) for x in l]),
         'writers': st.lists(writer, min_size=2, max_size=4),
         'poison': st.booleans(),
         # the classes of the objects referenced by (oid, class) references cannot be imported where the conflict is
@@ -102,23 +104,29 @@ def install_missing():
     return GoneCounter
 
 
+def fmt_of(key, ti):
+    f = key.split('_')[1]
+    return ['oc', 'x', 'w', 'o'][ti % 4] if f == 'any' else f
+
+
 def target_name(key, ti):
     """which target a reference key points to: weak and nested references share the targets of the
     strong formats (so one state can hold a weak and a strong reference to the same object)"""
-    fmt = key.split('_')[1]
+    fmt = fmt_of(key, ti)
     if fmt == 'w':
-        return 't_%s%d' % (('oc', 'o')[ti % 2], ti % 3)
+        return 't_%s%d' % (('oc', 'o')[ti % 2] if not key.endswith('_any') else 'oc', ti % 3)
     if fmt == 'nest':
         return 't_oc%d' % (ti % 3)
     return 't_%s%d' % (fmt, ti % 3)
 
 
-def ref_value(key, target):
+def ref_value(key, target, ti=0):
     """the Python value stored under key for the chosen target object"""
     from persistent.wref import WeakRef
-    if key.endswith('_w'):
+    fmt = fmt_of(key, ti)
+    if fmt == 'w':
         return WeakRef(target)
-    if key.endswith('_nest'):
+    if fmt == 'nest':
         return [{'k': (target, 7)}]
     return target
 
@@ -184,7 +192,7 @@ def execute(case):
             obj = klass()
             obj.n = 0
             for key, ti in case['init']:
-                setattr(obj, key, ref_value(key, targets[target_name(key, ti)]))
+                setattr(obj, key, ref_value(key, targets[target_name(key, ti)], ti))
             root['obj'] = obj
             other = vclasses.NoResolver()
             other.n = 0
@@ -293,9 +301,9 @@ def execute(case):
             if wspec.get('raise') and variant == 'RCounter' and wspec is not case['writers'][0]:
                 o.x_raise = wspec['raise']      # (never committed: such a writer always conflicts)
             for key, ti in wspec['sets']:
-                fmt = key.split('_')[1]
+                fmt = fmt_of(key, ti)
                 pool = cw.get_connection('two').root() if fmt == 'x' else cw.root()
-                setattr(o, key, ref_value(key, pool[target_name(key, ti)]))
+                setattr(o, key, ref_value(key, pool[target_name(key, ti)], ti))
             o._p_changed = True
         committed_model = dict(old_model)
         new_models = {}
@@ -322,6 +330,7 @@ def execute(case):
             out.evals += 1
             last = db.storage.lastTransaction()
             del vclasses.RESOLVE_LOG[:]
+            del vclasses.CMP_LOG[:]
             # (looked at without loading: a ghost has been discarded; a non-ghost must already hold the merged state)
             spy = Spy(lambda o=o: 'ghost' if o._p_changed is None else canon_state(dict(o.__dict__), nm_obj))
             tmw.get().join(spy)
@@ -384,6 +393,20 @@ def execute(case):
             if len(vclasses.RESOLVE_LOG) != 1:
                 out.fail((PROPERTY, 'resolution', 'resolver-call-count'), 'resolver called %d times' % len(vclasses.RESOLVE_LOG))
                 break
+            # comparisons between the references handed to the resolver: equal (and ordered as equal) if both are ordinary
+            # references to the same object of the same database, otherwise ValueError - never a guess
+            for k2, opname, r_, same_obj, fa, fb in vclasses.CMP_LOG:
+                same = same_obj or (fa[0] == fb[0] and fa[1] == fb[1] and not fa[2] and not fb[2])
+                want = {'eq': True, 'ne': False, 'le': True, 'gt': False}[opname] if same else 'ValueError'
+                if r_ != want or type(r_) is not type(want):
+                    out.fail((PROPERTY, 'resolution', 'reference-comparison', opname),
+                             'inside the resolver, %s of the references under %r (%r and %r) gave %r ; documented: %r' % (
+                                 opname, k2, fa, fb, r_, want))
+                    break
+            if out.failures:
+                break
+            if vclasses.CMP_LOG:
+                out.label('references-compared-inside-resolver')
             a_old, a_com, a_new = [canon_state(s_, nm_pr) for s_ in vclasses.RESOLVE_LOG[0]]
             for label, got, exp in (('old', a_old, old_model), ('committed', a_com, committed_model), ('new', a_new, new_model)):
                 if got != exp:
